@@ -8,6 +8,7 @@ import (
 	"strconv"
 	"strings"
 
+	"gitlab.com/gomidi/midi/v2"
 	"gitlab.com/gomidi/midi/v2/smf"
 )
 
@@ -242,9 +243,14 @@ func runC11File(c Case, m *Model) (v Verdict) {
 	type doEv struct {
 		track       int
 		ticks, time int64
+		typ         midi.Type
 	}
 	var does []doEv
 	var doErr error
+	// the same iteration restricted to some message types (TracksReader.Only): must hand out the matching events of
+	// the unrestricted iteration with the same ticks and times
+	filters := [][]midi.Type{{smf.MetaTempoMsg}, {midi.NoteOnMsg}, {smf.MetaTextMsg, smf.MetaTempoMsg}, {midi.ChannelMsg}, {smf.MetaMsg}, {smf.MetaEndOfTrackMsg}}
+	filtered := make([][]doEv, len(filters))
 	if p := try(func() {
 		data, err = f.build()
 		if err != nil {
@@ -259,9 +265,15 @@ func runC11File(c Case, m *Model) (v Verdict) {
 		}
 		tr := smf.ReadTracksFrom(bytes.NewReader(data))
 		tr.Do(func(te smf.TrackEvent) {
-			does = append(does, doEv{te.TrackNo, te.AbsTicks, te.AbsMicroSeconds})
+			does = append(does, doEv{te.TrackNo, te.AbsTicks, te.AbsMicroSeconds, te.Message.Type()})
 		})
 		doErr = tr.Error()
+		for i, fl := range filters {
+			i := i
+			smf.ReadTracksFrom(bytes.NewReader(data)).Only(fl...).Do(func(te smf.TrackEvent) {
+				filtered[i] = append(filtered[i], doEv{te.TrackNo, te.AbsTicks, te.AbsMicroSeconds, te.Message.Type()})
+			})
+		}
 	}); p != "" {
 		v.Oracle = append(v.Oracle, "panic while writing/reading/querying: "+p)
 		return
@@ -376,7 +388,7 @@ func runC11File(c Case, m *Model) (v Verdict) {
 		var abs int64
 		for _, e := range t {
 			abs += int64(e.delta)
-			wantDo = append(wantDo, doEv{no, abs, 0})
+			wantDo = append(wantDo, doEv{no, abs, 0, 0})
 		}
 	}
 	if len(does) != len(wantDo) {
@@ -389,6 +401,33 @@ func runC11File(c Case, m *Model) (v Verdict) {
 			}
 			if at := s.TimeAt(d.ticks); at != d.time {
 				v.Oracle = append(v.Oracle, fmt.Sprintf("Do event %d at tick %d: AbsMicroSeconds %d but TimeAt(%d)=%d", i, d.ticks, d.time, d.ticks, at))
+				break
+			}
+		}
+		for i, fl := range filters {
+			var want []doEv
+			for _, d := range does {
+				for _, t := range fl {
+					if d.typ.Is(t) {
+						want = append(want, d)
+						break
+					}
+				}
+			}
+			if len(want) != len(filtered[i]) {
+				v.Oracle = append(v.Oracle, fmt.Sprintf("Only(%v).Do handed out %d events, the unrestricted iteration has %d of these types", fl, len(filtered[i]), len(want)))
+				break
+			}
+			bad := false
+			for j := range want {
+				if want[j] != filtered[i][j] {
+					v.Oracle = append(v.Oracle, fmt.Sprintf("Only(%v).Do event %d: track/tick/time %d/%d/%d, the unrestricted iteration gives %d/%d/%d", fl, j,
+						filtered[i][j].track, filtered[i][j].ticks, filtered[i][j].time, want[j].track, want[j].ticks, want[j].time))
+					bad = true
+					break
+				}
+			}
+			if bad {
 				break
 			}
 		}
